@@ -1,6 +1,3 @@
 package main
 
 func selftestCmd(args []string) { panic("todo") }
-func replayCmd(args []string)   { panic("todo") }
-
-func tryReplay(eng *Engine, verif string, o *Oblig, r *ReplayRecord) {}
